@@ -106,13 +106,17 @@ CLAIMED = {
         text='Lean theorems C12_out_stores_iff (out() succeeds iff the output spec, as extended by earlier calls, accepts (path, value) '
              'and the place is free), C12_out_stored (value found at its path, unrelated paths unchanged, listener told (path, value, '
              'dynamic)), C12_out_failed (outputs and notifications unchanged, ValueError exactly for a rejected value), '
+             'C12_out_place_taken (spec accepts and out() raises: a value that is not a plain dict - an atom or an emitted immutable mapping - '
+             'sits on the way, TypeError exactly at the namespace, AttributeError above it), C12_immutable_is_value (nothing is ever stored '
+             'below an emitted immutable mapping, and it stays as emitted until overwritten), '
              'C12_successful_iff (FINISHED with the result preserved; successful iff the step result was successful and the outputs '
              'conform), C12_future_reports_outputs (notifications = the calls that returned, outputs = those re-inserted in order = '
              'future result = on_process_finished argument), for every output spec, oracle and emission sequence. Compared with real '
              'runs per emission (outcome class, dynamic flag, notification, outputs, port-name tree of the spec) and at the end.',
         note='Modelled, not verified: Process.out, PortNamespace.get_port(create_dynamically=True), Process.on_finish and the '
              'StateEntryFailed branch of StateMachine.transition_to (hand-written Lean mirror, differential check per emission). '
-             'The rest of the state machine around FINISHED is C01/C02.',
+             'The rest of the state machine around FINISHED is C01/C02. Implementation-only (tests): emission from an on_finish override; '
+             'a spec whose PORT_NAMESPACE_TYPE is a stricter PortNamespace subclass (the model has one namespace class).',
         technique='Lean 4 proof (induction over dotted names and emission sequences, reusing the C11 validation theorem) + differential '
                   'correspondence on generated output specs and emission sequences',
         design='6/C12'),
